@@ -98,12 +98,12 @@ def extractH (args : List String) : Option String := do
     some (match extractOk bs with | .ok () => "ok" | .err e => s!"raise {sErr e}")
   | _ => none
 
-/-- `config.basis bases leak` → `some ising|xy|other dim` | `none`. -/
+/-- `config.basis declared pulsed leak` → `some ising|xy|other dim` | `none`. -/
 def basisH (args : List String) : Option String := do
   match args with
-  | [bs, l] =>
-    let bs ← parseList pChan bs; let l ← parseB l
-    some (match pulserBasis bs l with
+  | [bs, ps, l] =>
+    let bs ← parseList pChan bs; let ps ← parseList pChan ps; let l ← parseB l
+    some (match pulserBasis bs ps l with
       | none => "none"
       | some (.ising, d) => s!"some ising {d}"
       | some (.xy, d) => s!"some xy {d}"
@@ -118,6 +118,30 @@ def seqH (args : List String) : Option String := do
     let ops ← parseList pNat ops; let na ← pNat na; let ng ← pNat ng
     let s ← pSolver s; let cn ← parseB cn
     some (sOutcome (acceptSeq v b { ham := h, dim := d, opDims := ops, nAtoms := na, nGood := ng } s cn))
+  | _ => none
+
+def pGuard : String → Option ExtractGuard
+  | "declared" => some .declared | "used" => some .used | _ => none
+def pForm : String → Option SolverForm
+  | "member" => some .member | "string" => some .string | "roundtrip" => some .roundTrip | _ => none
+def pTest : String → Option SolverTest
+  | "value" => some .byValue | "identity" => some .byIdentity | _ => none
+
+/-- `config.implf test form variant solver nOps cfgNoise nAtoms` → `ok plain|noisy|dmrg` | `raise e`. -/
+def implFH (args : List String) : Option String := do
+  match args with
+  | [t, f, v, s, n, cn, na] =>
+    let t ← pTest t; let f ← pForm f
+    let v ← pVariant v; let s ← pSolver s; let n ← pNat n; let cn ← parseB cn; let na ← pNat na
+    some (sR sImpl (createImplF t f v s n cn na))
+  | _ => none
+
+/-- `config.extractg guard declared pulsed` → `ok` | `raise value`. -/
+def extractGH (args : List String) : Option String := do
+  match args with
+  | [g, bs, ps] =>
+    let g ← pGuard g; let bs ← parseList pChan bs; let ps ← parseList pChan ps
+    some (match extractOkG g bs ps with | .ok () => "ok" | .err e => s!"raise {sErr e}")
   | _ => none
 
 def pRebuild : String → Option Rebuild
@@ -164,19 +188,20 @@ def acceptDevH (args : List String) : Option String := do
     some (sOutcome (acceptDev fx b it d pr ck dk s))
   | _ => none
 
-/-- `config.sequence variant fixed backend bases leak kinds solver` → outcome | `none`. -/
+/-- `config.sequence guard variant fixed backend declared pulsed leak kinds solver` → outcome | `none`. -/
 def sequenceH (args : List String) : Option String := do
   match args with
-  | [v, fx, b, bs, l, ks, s] =>
+  | [g, v, fx, b, bs, ps, l, ks, s] =>
+    let g ← pGuard g; let ps ← parseList pChan ps
     let v ← pVariant v; let fx ← parseB fx; let b ← pBackend b; let bs ← parseList pChan bs; let l ← parseB l
     let ks ← parseList pKind ks; let s ← pSolver s
-    some (match acceptSequence v fx b bs l ks s with | none => "none" | some o => sOutcome o)
+    some (match acceptSequenceG g v fx b bs ps l ks s with | none => "none" | some o => sOutcome o)
   | _ => none
 
 def handlers : List (String × (List String → Option String)) :=
   [("config.floor", floorF), ("config.mk", mkF), ("config.lind", lindH), ("config.detect", detectH),
    ("config.extract", extractH), ("config.basis", basisH), ("config.seq", seqH), ("config.run", runH),
-   ("config.impl", implH), ("config.accept", acceptH), ("config.acceptdev", acceptDevH),
+   ("config.impl", implH), ("config.implf", implFH), ("config.extractg", extractGH), ("config.accept", acceptH), ("config.acceptdev", acceptDevH),
    ("config.sequence", sequenceH)]
 
 end EmuVerif.Drv.Config
